@@ -12,7 +12,7 @@ import sys
 import time
 
 ROOT = os.environ.get('VERIF_ROOT', os.path.dirname(os.path.dirname(os.path.abspath(__file__))))
-REPO = '/repo'
+REPO = os.environ.get('VERIF_REPO', '/repo')   # /repo for every registered command; seeded/pdetect.sh points copies at scratch worktrees
 LEAN = os.path.join(ROOT, 'lean')
 WORK = os.path.join(ROOT, '.work')
 EVID = os.path.join(ROOT, 'evidence')
